@@ -178,7 +178,7 @@ def run_real(line, script, url=DEFAULT_URL, responder=None):
             'escaped': escaped}
 
 
-def run_main(words, script, url=DEFAULT_URL):
+def run_main(words, script, url=DEFAULT_URL, stdin_text=None):
     """The one-shot entry point: supervisorctl.main(['-s', url] + words) with a real ClientOptions
     (real realize(): argv parsing, no config file) whose getServerProxy returns the scripted proxy.
     Returns dict(msgs, exit_code, calls); exit_code is what sys.exit() was called with."""
@@ -196,8 +196,12 @@ def run_main(words, script, url=DEFAULT_URL):
     supervisorctl.http_client = _HttpShim(srv)
     code = 'main() returned without sys.exit'
     escaped = None
+    old_in = sys.stdin
     try:
         sys.stdout = out
+        if stdin_text is not None:
+            import io
+            sys.stdin = io.StringIO(stdin_text)
         try:
             supervisorctl.main(args=['-s', url] + list(words), options=Opts())
         except SystemExit as e:
@@ -206,6 +210,7 @@ def run_main(words, script, url=DEFAULT_URL):
             escaped = '%s: %s' % (type(e).__name__, e)
     finally:
         sys.stdout = old
+        sys.stdin = old_in
     return {'msgs': list(out.msgs), 'exit_code': code, 'calls': srv.calls, 'escaped': escaped}
 
 
